@@ -295,3 +295,83 @@ func joinLabels(ls []string) string {
 	}
 	return s
 }
+
+func init() {
+	// sync.Pool of byte buffers: Get yields a []byte of len == cap == segment.minBufSize
+	// (assumption: the pool's New function and every Put hand in such slices;
+	// established by segment.NewFiler and Reader.makeBuffer's CloseFn).
+	intrinsics["(*sync.Pool).Get"] = func(e *Exec, st *State, fr *Frame, a []Value, in ssa.Instruction) Value {
+		bt := types.NewSlice(types.Typ[types.Uint8])
+		n := i64(64 * 1024)
+		s := e.newSlice(st, types.Typ[types.Uint8], n, n, fmt.Sprintf("pool#%d", e.nobj+1))
+		// contents of a pooled buffer are arbitrary
+		s.Reg.Init = nil
+		return VIface{Nil: False, Dyn: bt, Val: s}
+	}
+	intrinsics["(*sync.Pool).Put"] = func(e *Exec, st *State, fr *Frame, a []Value, in ssa.Instruction) Value {
+		return nil
+	}
+	// fmt.Sprintf with a literal format and integer arguments is an
+	// uninterpreted injective-free function of its arguments (sprintfN).
+	intrinsics["fmt.Sprintf"] = func(e *Exec, st *State, fr *Frame, a []Value, in ssa.Instruction) Value {
+		f, ok := a[0].(VStr)
+		va, ok2 := a[1].(VSlice)
+		if ok && ok2 && f.Lit != nil && va.Reg != nil && va.Len.Const && va.Len.V <= 4 {
+			args := []T{f.T}
+			good := true
+			for i := uint64(0); i < va.Len.V; i++ {
+				v, have := e.anyElems[fmt.Sprintf("%s[%d]", va.Reg.Name, i)]
+				if !have {
+					good = false
+					break
+				}
+				if vi, isI := v.(VIface); isI {
+					v = vi.Val
+				}
+				iv, isInt := v.(VInt)
+				if !isInt {
+					good = false
+					break
+				}
+				args = append(args, ZeroExt(iv.T, 64))
+			}
+			if good {
+				name := fmt.Sprintf("sprintf%d", len(args)-1)
+				e.specFns[name] = true
+				registerSprintf(len(args) - 1)
+				return VStr{T: UF(name, BV32, args...)}
+			}
+		}
+		return VStr{T: e.fresh("sprintf", BV32)}
+	}
+	specFuncs["sprintf"] = func(env *Env, n *ECall) Value {
+		if len(n.Args) < 1 {
+			env.fail("sprintf needs a format")
+		}
+		f, ok := env.eval(n.Args[0]).(VStr)
+		if !ok {
+			env.fail("sprintf format must be a string")
+		}
+		args := []T{f.T}
+		for _, a := range n.Args[1:] {
+			args = append(args, ZeroExt(coerceUntyped(env.evalInt(a), 64, false).T, 64))
+		}
+		name := fmt.Sprintf("sprintf%d", len(args)-1)
+		registerSprintf(len(args) - 1)
+		return VStr{T: UF(name, BV32, args...)}
+	}
+}
+
+func registerSprintf(n int) {
+	name := fmt.Sprintf("sprintf%d", n)
+	if _, ok := extraPreludes[name]; ok {
+		return
+	}
+	decl := "(declare-fun " + name + " ((_ BitVec 32)"
+	for i := 0; i < n; i++ {
+		decl += " (_ BitVec 64)"
+	}
+	decl += ") (_ BitVec 32))\n"
+	extraPreludes[name] = decl
+	extraPreludeOrder = append(extraPreludeOrder, name)
+}
